@@ -140,8 +140,9 @@ MANIFEST = {
             "regenerated grammar) to the same nodes and assembles to exactly the concatenation of the instructions' bytes; TEXT TO BYTES (C02_text): "
             "for every macro-free program text (instructions, pushN <expr>, %push(<expr>), label definitions, any layout, operand expressions "
             "with literals in four radixes, negatives, labels, nested parentheses) preprocess yields one raw op per statement and assemble "
-            "succeeds exactly when Spec.assembleItems does on the statements' items, with the same bytes. Programs with macros and "
-            "directives are exercised at text level by the correspondence (random legal layouts), not proved.",
+            "succeeds exactly when Spec.assembleItems does on the statements' items, with the same bytes. For programs with macros the text -> nodes -> ops "
+            "handed to assemble step is proved for the whole language (C10_text, C10_text_preprocess; one level of %import / %include: C12_import_is_paste); "
+            "the closed form bytes(text) = assembleItems(statements) is for macro-free programs.",
     "note": "Trusted: Lean kernel; Asm/Assemble.lean tied by the differential run over the whole mnemonic set and all push widths; the "
             "mnemonic -> opcode mapping is the regenerated table (C17) and grammar (C03 table theorems); parsing is the generic pest "
             "interpreter over the regenerated grammar, tied by the same run.",
